@@ -14,5 +14,15 @@ RowRange == ((i - 1) * Chunk + 1)..(IF i * Chunk < Len(Rows) THEN i * Chunk ELSE
 RowOK(r) == /\ (r[1] = 1 => (r[3] = 1 /\ r[4] = 1 /\ r[2] = 1))
             /\ (r[1] = 0 => r[2] = 0)
 AllOK == \A k \in RowRange : RowOK(Rows[k])
+\* server-side rows (mutations of the client hello and of the challenge response, full exchange on a fresh client + server each):
+\*   <<kind, server reported connect, client connected, same key at both ends, same token, a connect event for another address>>
+\* kind 1: a mutated client hello, then the honest rest of the exchange - the server reports the client only if both ends agree on key and token
+\* kind 2: a mutated challenge response (nothing else delivered afterwards) - never a connect
+\* kind 3: the genuine challenge response replayed from another address - never a connect for that address
+RowOK2(r) == /\ (r[1] = 1 => (r[2] = 1 => (r[3] = 1 /\ r[4] = 1 /\ r[5] = 1)))
+             /\ (r[1] = 2 => r[2] = 0)
+             /\ r[6] = 0
+AllOK2 == \A k \in RowRange : RowOK2(Rows[k])
+Where2 == [i |-> i, bad |-> {<<k, Rows[k]>> : k \in {x \in RowRange : ~RowOK2(Rows[x])}}]
 Where == [i |-> i, bad |-> {<<k, Rows[k]>> : k \in {x \in RowRange : ~RowOK(Rows[x])}}]
 =============================================================================
